@@ -16,7 +16,7 @@ EXPLANATION = (
     "cfg!(panic=\"abort\") arms are pruned by constant propagation). R5: Drop for MaskedStorage reaches clear on every path (teardown uses R1)."
 )
 NOT_DECIDED = ("what user destructors do; panics raised by hibitset itself; leak freedom after a panic (the property allows leaks); "
-               "storages supplied by users of the library")
+               "storages supplied by users of the library R3 also counts handing the whole &mut self to a sibling method that mutates an index table (an overriding drop() that destroys in place and then calls self.remove(id)).")
 TRUSTED = ["rustc nightly drop elaboration and unwind-edge construction", "hibitset BitSet::{remove,clear,add} and mem::take semantics by name",
            "sa/ analyses (selftest: each of the four one-line reverts is reported)"]
 LEVEL_TEXT = ("Every unwind path of the generic MIR of the destroying operations (clear, per-index drop, clean of each storage kind, first insert) "
